@@ -163,6 +163,20 @@ func rlPopulate(md protoreflect.MessageDescriptor, d *rlDecl, c rlCand, anchor b
 			msg.Set(afd, protoreflect.ValueOfString(rlKeyAtoms["id62ok"]))
 		}
 	}
+	// sibling fields (rlOpts.Siblings) are required: give them valid values, the verdict is about the subject
+	if f := md.Fields().ByName("sib_key"); f != nil {
+		msg.Set(f, protoreflect.ValueOfString(rlKeyAtoms["id62ok"]))
+	}
+	if f := md.Fields().ByName("sib_uuid"); f != nil {
+		msg.Set(f, protoreflect.ValueOfString("123e4567-e89b-12d3-a456-426614174000"))
+	}
+	if f := md.Fields().ByName("sib_when"); f != nil {
+		ts := msg.Mutable(f).Message()
+		ts.Set(ts.Descriptor().Fields().ByName("seconds"), protoreflect.ValueOfInt64(1700000000))
+	}
+	if f := md.Fields().ByName("sib_tags"); f != nil {
+		msg.Mutable(f).List().Append(protoreflect.ValueOfString("t"))
+	}
 	fd := md.Fields().ByName("subject")
 	if fd == nil {
 		return nil, fmt.Errorf("compiled message has no field `subject`")
@@ -418,6 +432,9 @@ func rlValidateDriver(raw json.RawMessage) *Out {
 	out := &Out{Key: rlDeclKey(d)}
 	if c.Opts.EnumNums {
 		out.Key += "|enumNums"
+	}
+	if c.Opts.ZeroPrefixed {
+		out.Key += "|zeroPrefixed"
 	}
 	fam := rlFamily(d.Kind)
 	where := d.Card + ":" + d.Kind
